@@ -90,6 +90,7 @@ def gen_tree():
         s += "      container sub {\n" + leaf("w", r["w"], "        ") + "      }\n    }\n"
         s += "    list ol {\n      key \"k\";\n      ordered-by user;\n" + leaf("k", r["ok"], "      ") + leaf("v", r["ov"], "      ") + "      container sub {\n" + leaf("w", r["ow"], "        ") + "      }\n    }\n"
         s += "    list m {\n      key \"k1 k2\";\n" + leaf("k1", r["k1"], "      ") + leaf("k2", r["k2"], "      ") + leaf("v", r["mv"], "      ") + "    }\n"
+        s += "    list om {\n      key \"k1 k2\";\n      ordered-by user;\n" + leaf("k1", r["k1"], "      ") + leaf("k2", r["k2"], "      ") + leaf("v", r["mv"], "      ") + "    }\n"
         s += "    container st {\n      config false;\n" + leaf("s", r["s"], "      ")
         s += "      list ul {\n" + leaf("u", r["u"], "        ") + "      }\n    }\n"
         s += "  }\n"
@@ -131,6 +132,9 @@ def gen_oc():
         s += "    container ms {\n      list m {\n        key \"k1 k2\";\n        leaf k1 { type leafref { path \"../config/k1\"; } }\n        leaf k2 { type leafref { path \"../config/k2\"; } }\n"
         s += cs(leaf("k1", r["k1"], "          ") + leaf("k2", r["k2"], "          ") + leaf("v", r["mv"], "          "), "", "        ")
         s += "      }\n    }\n"
+        s += "    container oms {\n      list om {\n        key \"k1 k2\";\n        ordered-by user;\n        leaf k1 { type leafref { path \"../config/k1\"; } }\n        leaf k2 { type leafref { path \"../config/k2\"; } }\n"
+        s += cs(leaf("k1", r["k1"], "          ") + leaf("k2", r["k2"], "          ") + leaf("v", r["mv"], "          "), "", "        ")
+        s += "      }\n    }\n"
         s += "  }\n"
         out.append(s)
     out.append("  }\n}\n")
@@ -161,9 +165,9 @@ def variants():
     pools = {t: p for t, (_, p) in TYPES.items()}
     # abstract leaf position -> role
     pos = {"c/a": "a", "c/b": "b", "c/ll": "ll", "c/p/x": "x", "l/k": "k", "l/v": "v", "l/sub/w": "w",
-           "ol/k": "ok", "ol/v": "ov", "ol/sub/w": "ow", "m/k1": "k1", "m/k2": "k2", "m/v": "mv", "st/s": "s", "st/ul/u": "u"}
+           "ol/k": "ok", "ol/v": "ov", "ol/sub/w": "ow", "m/k1": "k1", "m/k2": "k2", "m/v": "mv", "om/k1": "k1", "om/k2": "k2", "om/v": "mv", "st/s": "s", "st/ul/u": "u"}
     return {"variants": v, "pools": pools, "positions": pos,
-            "lists": {"l": ["k"], "ol": ["k"], "m": ["k1", "k2"]}, "ordered": ["ol"],
+            "lists": {"l": ["k"], "ol": ["k"], "m": ["k1", "k2"], "om": ["k1", "k2"]}, "ordered": ["ol", "om"],
             "leaflists": ["c/ll"], "presence": ["c/p"], "unkeyed": ["st/ul"]}
 
 
